@@ -3,7 +3,8 @@
  R1 ConformalElectionModel.get_unit_predictions returns round(maximum(f, N.results_e));
  R2 nonparametric and gaussian get_unit_prediction_intervals: both returned bounds are round(maximum(g, N.results_e));
  R3 gaussian aggregate: predicted_lower/upper = maximum(last + lb|ub, S_N(results_e)), then + (S_R + S_U)(results_e) with
-    fill-before-add, then round; the early return (no nonreporting units) equals the counted votes;
+    fill-before-add, then round; the early return (no nonreporting units) equals the counted votes; the floor column is read
+    from a second table by position, so both tables must have the same row signature (R3.aligned);
  R4 results handler: for reporting and unexpected units pred_e, lower_a_e, upper_a_e are copies of results_e for every level,
     and pred_turnout is a copy of results_weights.
 Lemma: R2 + C02.R2 give the aggregate floor and the zero-width interval of groups without nonreporting units (nonparametric).
@@ -94,6 +95,7 @@ def check(ctx):
                 ctx.ob("C03.R3.counted", f"{gf.qualname}|aggregate {side} adds counted votes ({mode})", got == want and not problems, gf.where(n),
                        "adds " + " + ".join(f"S_{fr}(results_e)" for fr, _, _ in want) + " with fill-before-add" if got == want and not problems
                        else f"adds {got} (expected {want}); NaN problems: {len(problems)}")
+    floor_alignment(ctx, "C03.R3.aligned", mb, F, gf, gs)
     ctx.sites("C03.R3.early", len(early), 1, "early return of the gaussian aggregate interval function")
     for pc, t, n in early:
         cond = pc[-1] if pc else None
@@ -157,3 +159,32 @@ def check(ctx):
         ctx.ob("C03.R4.intervals", f"{ui.qualname}|{attr}.lower/upper = results_e for every level", ok, ui.where(),
                f"{attr}: lower_a_e and upper_a_e are copies of results_e for every interval level of the handler" if ok
                else f"{attr}: bounds assigned {sides}, loop over all levels: {over_all}")
+
+
+def floor_alignment(ctx, rule, mb, F, gf, gs):
+    """Shared with C10: row alignment of the gaussian aggregate floor."""
+    # row alignment of the floor: the counted votes are read from ANOTHER table inside .assign(lambda); pandas pairs the rows by
+    # index label, so both tables must list the same groups in the same (sorted) order under a fresh range index
+    from ..frames import foreign_column_reads, signature
+    acalls = []
+    for _, _, t_, _ in gs.assigns:
+        for x in ir.walk(t_):
+            if x[0] == "call" and x[1][0] == "attr" and x[1][2] == "assign" and any(k and k.startswith("predicted_") for k, _ in x[3]) and x not in acalls:
+                acalls.append(x)
+    nal = 0
+    for x in acalls:
+        for k, fr in foreign_column_reads(mb, F, x):
+            nal += 1
+            for cls_mode in (False, True):
+                mode = "classification level" if cls_mode else "state/county/district level"
+                try:
+                    su, so, si = signature(x[1][1], {CLS_FLAG: cls_mode})
+                    fu, fo, fi = signature(fr, {CLS_FLAG: cls_mode})
+                    oka = so == fo == "sorted" and si == fi == "range"
+                    detail = ("both tables are sorted by the aggregate keys under a fresh range index, so row i of the floor is group i of the bounds"
+                              if oka else f"rows of the bounds table are in '{so}' order (index {si}) but the counted-votes table is in '{fo}' order "
+                              f"(index {fi}): group i is floored at the counted votes of another group")
+                except AnalysisError as e:
+                    oka, detail = False, f"row order not derivable: {e}"
+                ctx.ob(rule, f"{gf.qualname}|{k} floor rows aligned with the bounds rows ({mode})", oka, gf.where(), detail)
+    ctx.sites(rule, nal, 0, "columns of another table read inside the gaussian aggregate assign(lambda)")
